@@ -170,6 +170,11 @@ def check_value_equality():
     msgs = []
     pairs = [("GEO", (0.0, 1.0), (-0.0, 1.0)), ("GEO", (1.5, 2.0), (1.5, 2.5)), ("TZOFFSETTO", timedelta(hours=1), timedelta(hours=2)),
              ("RDATE", [date(2024, 1, 1)], [date(2024, 1, 2)]), ("CATEGORIES", ["a", "b"], ["a", "c"]),
+             # the same values in another ORDER are another value (the serialisations differ)
+             ("CATEGORIES", ["WORK", "APPOINTMENT"], ["APPOINTMENT", "WORK"]), ("RDATE", [date(2024, 1, 1), date(2024, 1, 2)], [date(2024, 1, 2), date(2024, 1, 1)]),
+             ("EXDATE", [datetime(2024, 1, 1, 10), datetime(2024, 1, 2, 10)], [datetime(2024, 1, 2, 10), datetime(2024, 1, 1, 10)]),
+             ("RRULE", {"freq": "weekly", "byday": ["MO", "WE"]}, {"freq": "weekly", "byday": ["WE", "MO"]}),
+             ("ATTENDEE", "mailto:a@example.com", "mailto:A@example.com"), ("SUMMARY", "a b", "a  b"),
              ("DTSTART", datetime(2024, 1, 1, 10), datetime(2024, 1, 1, 10, tzinfo=timezone.utc)), ("ATTACH", "a", "b"),
              ("DURATION", timedelta(hours=1), timedelta(hours=2)), ("PRIORITY", 1, 2)]
     for name, a, b in pairs:
